@@ -52,7 +52,7 @@ M = [
  ("prio2-drained-any", "v2/priority/priority.go", "func (dsc *Discipline[Type]) isDrainedInputs() bool {\n\tfor _, input := range dsc.inputs {\n\t\tif !input.Drained {\n\t\t\treturn false\n\t\t}\n\t}\n\n\treturn true", "func (dsc *Discipline[Type]) isDrainedInputs() bool {\n\tfor _, input := range dsc.inputs {\n\t\tif input.Drained {\n\t\t\treturn true\n\t\t}\n\t}\n\n\treturn false", ["C07", "C02"]),
  ("prio2-ignore-divider-error-in-recalc", "v2/priority/priority.go", "\tif err != nil {\n\t\treturn false, err\n\t}\n\n\tdsc.updateUsefulLikeUncrowded()", "\tdsc.updateUsefulLikeUncrowded()", ["C15"]),
  ("prio2-safedivide-only-over", "v2/priority/assist.go", "\tif after-before != dividend {", "\tif after-before > dividend {", ["C15"]),
- ("prio2-new-accepts-zero-share", "v2/priority/priority.go", "\tif !common.IsDistributionFilled(strategic) {\n\t\treturn nil, nil, nil, ErrHandlersQuantityTooSmall\n\t}\n", "", ["C15"]),
+ ("prio2-new-accepts-zero-share", "v2/priority/priority.go", "\tif len(strategic) != len(priorities) || !common.IsDistributionFilled(strategic) {\n\t\treturn nil, nil, nil, ErrHandlersQuantityTooSmall\n\t}\n", "", ["C15"]),
  # ---- priority v1
  ("prio1-stop-spin-reverted", "priority/priority.go", "\t\tif interrupted := dsc.getOneFeedback(); interrupted {\n\t\t\treturn true, nil\n\t\t}", "\t\tdsc.getOneFeedback()", ["C16"]),
  ("simple1-graceful-blocks-stop-reverted", "priority/simple.go", "\t\tsmpl.gracefulStop()\n", "\t\tsmpl.priority.GracefulStop()\n", ["C16"]),
@@ -72,6 +72,7 @@ M = [
  ("race-join1-unreleased-flag-read-in-stop", "join/join.go", "func (dsc *Discipline[Type]) Stop() {\n\tdsc.breaker.Break()", "func (dsc *Discipline[Type]) Stop() {\n\tif dsc.unreleased {\n\t\treturn\n\t}\n\tdsc.breaker.Break()", ["C20"]),
  ("race-limit-output-len-stat", "v2/limit/limit.go", "type Discipline[Type any] struct {\n\topts Opts[Type]\n", "type Discipline[Type any] struct {\n\topts Opts[Type]\n\tsent int\n", []),
  ("simple2-handle-twice-when-backlogged", "v2/priority/simple/simple.go", "\t\tdsc.opts.Handle(prioritized.Item)\n", "\t\tif len(dsc.priority.Output()) > 0 {\n\t\t\tdsc.opts.Handle(prioritized.Item)\n\t\t}\n\t\tdsc.opts.Handle(prioritized.Item)\n", ["C02"]),
+ ("prio2-new-counts-only-found-entries-reverted", "v2/priority/priority.go", "\tif len(strategic) != len(priorities) || !common.IsDistributionFilled(strategic) {", "\tif !common.IsDistributionFilled(strategic) {", ["C15"]),
 ]
 
 def main():
